@@ -29,13 +29,13 @@ var keyPool = [][]string{
 var fillers = []string{"x", "é", "<&>", " z", "\"\\"}
 
 type tagsRun struct {
-	e      *env
-	c      *client
-	keys   []string
-	vals   map[int]string // value id -> concrete
-	byVal  map[string]int
-	file   string
-	seq    uint64
+	e     *env
+	c     *client
+	keys  []string
+	vals  map[int]string // value id -> concrete
+	byVal map[string]int
+	file  string
+	seq   uint64
 }
 
 func makeValue(id int, rng *rand.Rand) string {
